@@ -297,6 +297,8 @@ func ruleFlagsEffects(c *Ctx) {
 // perm-method-check, perm-switch
 
 func rulePermissions(c *Ctx) {
+	// a permission is matched against the manifest of the contract being called, not the caller's own
+	permArgIsCallee(c)
 	fd := c.P.Func("pkg/smartcontract/manifest", "Permission", "IsAllowed")
 	if fd == nil {
 		c.Lost("IsAllowed.anchor", "manifest.(*Permission).IsAllowed not found")
@@ -467,12 +469,22 @@ func ruleWildNonNil(c *Ctx) {
 			switch s := x.(type) {
 			case *ast.CompositeLit:
 				if t := pk.TypesInfo.TypeOf(s); t != nil && isWild(t) {
+					hasValue := false
 					for _, el := range s.Elts {
 						if kv, ok := el.(*ast.KeyValueExpr); ok {
 							if id, ok := kv.Key.(*ast.Ident); ok && id.Name == "Value" {
+								hasValue = true
 								report(kv, kv.Value, t.(*types.Named).Obj().Name())
 							}
 						}
+					}
+					if !hasValue {
+						// Value left to its zero value (nil = wildcard) and filled by Add calls later: with nothing
+						// to add, the explicit empty list stays a wildcard
+						n++
+						k++
+						key := fmt.Sprintf("%s.%s#%d", FuncKey(fd.Obj), t.(*types.Named).Obj().Name(), k)
+						c.Fail(key, c.P.Pos(s.Pos()), fmt.Sprintf("%s builds a %s without stating its Value: it starts as nil, which means WILDCARD, and becomes a list only if something is added - an explicit empty list (allow nothing) would silently become allow-everything", FuncKey(fd.Obj), t.(*types.Named).Obj().Name()))
 					}
 				}
 			case *ast.AssignStmt:
@@ -494,4 +506,51 @@ func ruleWildNonNil(c *Ctx) {
 		})
 	}
 	c.Floor("stores into a wildcard container's Value", n, 6)
+}
+
+// permArgIsCallee: Manifest.CanCall hands the callee's manifest (its parameter) to Permission.IsAllowed.
+func permArgIsCallee(c *Ctx) {
+	fd := c.P.Func("pkg/smartcontract/manifest", "Manifest", "CanCall")
+	key := "CanCall.matches-callee"
+	if fd == nil {
+		c.Lost(key+".anchor", "Manifest.CanCall not found")
+		return
+	}
+	f := c.P.NewFuncCFG(fd)
+	// the parameter of type *Manifest
+	var callee types.Object
+	for _, fl := range fd.Decl.Type.Params.List {
+		if namedTypeIs(f.Info.TypeOf(fl.Type), "pkg/smartcontract/manifest", "Manifest") {
+			for _, nm := range fl.Names {
+				callee = f.Info.Defs[nm]
+			}
+		}
+	}
+	if callee == nil {
+		c.Lost(key+".param", "Manifest.CanCall has no *Manifest parameter")
+		return
+	}
+	n := 0
+	ast.Inspect(fd.Decl.Body, func(x ast.Node) bool {
+		call, ok := x.(*ast.CallExpr)
+		if !ok || f.calleeSym(call) != "pkg/smartcontract/manifest.(*Permission).IsAllowed" {
+			return true
+		}
+		n++
+		okArg := false
+		for _, a := range call.Args {
+			if id, ok := ast.Unparen(a).(*ast.Ident); ok && f.Info.ObjectOf(id) == callee {
+				okArg = true
+			}
+		}
+		if okArg {
+			c.OK(key, c.P.Pos(call.Pos()), "IsAllowed receives the manifest of the contract being called")
+		} else {
+			c.Fail(key, c.P.Pos(call.Pos()), "Manifest.CanCall does not pass the callee's manifest to Permission.IsAllowed: group permissions are then matched against some other contract's groups")
+		}
+		return true
+	})
+	if n == 0 {
+		c.Lost(key+".site", "Manifest.CanCall no longer calls Permission.IsAllowed")
+	}
 }
